@@ -143,7 +143,7 @@ func traceT1Write(args []string) error {
 	}
 	for i := 0; i < n; i++ {
 		o := fontgen.Opts{NGlyphs: []int{2, 5, 12, 40}[i%4], Fractional: i%5 == 3, Encoding: encs[i%5], HardString: i%2 == 1,
-			Zone: []string{"none", "utc", "unnamed"}[i%3], NonDefault: i%3 == 1, LongPaths: i%9 == 4}
+			Zone: []string{"none", "utc", "unnamed"}[i%3], NonDefault: i%3 == 1, LongPaths: i%9 == 4, BigFrac: i%5 == 3 && i%2 == 1}
 		if i == n-1 && n >= 30 {
 			o.NGlyphs = 300
 		}
